@@ -180,7 +180,8 @@ Section Rel.
     induction ms as [|m ms IH]; intros w1 w2 r s1' Hw H; cbn [relay] in *; [discriminate|].
     destruct (so_type (as_so m) =? HEY).
     - injection H as <- <-. exists (w_st w2). split; [reflexivity|apply Hw].
-    - destruct (apply_op bs oldC olds w1 (as_so m)) as [w1'| |] eqn:E; cbn [bind] in H; try discriminate.
+    - destruct (negb (validate_op oldC (as_so m))); [discriminate|].
+      destruct (apply_op bs oldC olds w1 (as_so m)) as [w1'| |] eqn:E; cbn [bind] in H; try discriminate.
       destruct (apply_op_rel _ _ _ _ Hw E) as (w2' & E2 & Hw').
       rewrite E2. cbn [bind]. eapply IH; eassumption.
   Qed.
@@ -244,6 +245,7 @@ Section Rel.
     exists s2', process_rsync bs oldC newC olds idx ms s2 = Ok (r, s2') /\ srel s1' s2'.
   Proof.
     intros Hs H. unfold process_rsync in *. destruct ms as [|m ms]; [discriminate|].
+    destruct (negb (validate_op oldC (as_so m))); [discriminate|].
     destruct (is_full_file_op bs oldC newC idx (as_so m)) as [[|]| |]; cbn [bind] in *; try discriminate.
     - destruct (transpose oldC newC olds s1 idx (so_file (as_so m))) as [sa| |] eqn:E; cbn [bind] in H; try discriminate.
       destruct (transpose_rel _ _ _ _ Hs E) as (sb & E' & Hs'). rewrite E'. cbn [bind].
@@ -261,6 +263,7 @@ Section Rel.
     exists s2', process_bsdiff oldC newC olds idx ms s2 = Ok (r, s2') /\ srel s1' s2'.
   Proof.
     intros Hs H. unfold process_bsdiff in *. destruct ms as [|m ms]; [discriminate|].
+    destruct ((bh_target (as_bh m) <? 0) || (bh_target (as_bh m) >=? Z.of_nat (length (c_files oldC)))); [discriminate|].
     destruct (pool_open oldC olds (bh_target (as_bh m))) as [old| |]; cbn [bind] in *; try discriminate.
     pose proof (srel_ev _ _ (EvRead (bh_target (as_bh m))) Hs I) as Hs1.
     destruct (open_writer newC (ev s1 (EvRead (bh_target (as_bh m)))) idx) as [w1| |] eqn:E; cbn [bind] in H; try discriminate.
@@ -295,6 +298,7 @@ Section Skip.
   Proof.
     induction ms as [|m ms IH]; intros w r s H; cbn [relay skip_rsync] in *; [discriminate|].
     destruct (so_type (as_so m) =? HEY); [injection H as <- _; reflexivity|].
+    destruct (negb (validate_op oldC (as_so m))); [discriminate|].
     destruct (apply_op bs oldC olds w (as_so m)) as [w'| |]; cbn [bind] in H; try discriminate.
     eapply IH; eassumption.
   Qed.
@@ -309,6 +313,7 @@ Section Skip.
     process_rsync bs oldC newC olds idx ms s = Ok (r, s') -> skip_rsync ms = Ok r.
   Proof.
     unfold process_rsync. destruct ms as [|m ms]; [discriminate|]. cbn [skip_rsync].
+    destruct (negb (validate_op oldC (as_so m))); [discriminate|].
     destruct (is_full_file_op bs oldC newC idx (as_so m)) as [[|]| |] eqn:Ef; cbn [bind]; try discriminate.
     - assert (Et : (so_type (as_so m) =? HEY) = false).
       { unfold is_full_file_op in Ef. destruct (Z.eqb_spec (so_type (as_so m)) T_BLOCK_RANGE) as [->|]; [reflexivity|discriminate]. }
@@ -332,6 +337,7 @@ Section Skip.
     process_bsdiff oldC newC olds idx ms s = Ok (r, s') -> skip_bsdiff ms = Ok r.
   Proof.
     unfold process_bsdiff, skip_bsdiff. destruct ms as [|m ms]; [discriminate|].
+    destruct ((bh_target (as_bh m) <? 0) || (bh_target (as_bh m) >=? Z.of_nat (length (c_files oldC)))); [discriminate|].
     destruct (pool_open oldC olds (bh_target (as_bh m))); cbn [bind]; try discriminate.
     destruct (open_writer newC _ idx) as [w| |]; cbn [bind]; try discriminate.
     destruct (ctrl_loop a 0 ms w) as [[r1 w1]| |] eqn:Ec; cbn [bind]; try discriminate.
